@@ -18,6 +18,9 @@ CLAIMED = {
  "C13": dict(technique="abstract interpretation of set_slope_exp over an interval domain (exhaustive over exponent intervals) + who-may-write rule",
              text="Decides that the linear-case classification is two-sided for every exponent (intervals below / at / above one) on every instantiation; the numerical residual of the implicit equation is not decided.",
              ref="§5 C13"),
+ "C10": dict(technique="effect summaries (access paths, aliases, index shapes, callee summaries through returned references) of every run_blocks callable per grid type; must-precede rule for the sequential donors rebuild; sibling write-set agreement",
+             text="Decides race freedom of the parallel regions by an effect discipline (shared objects written only at block-derived indices) for all 7 grid instantiations and all paths, plus the ordering of the donors rebuild. Numeric equality beyond race freedom and identical per-index logic is not decided; user kernel callbacks are assumed index-partitioned.",
+             ref="§5 C10"),
 }
 NA = {}
 DEFAULT_NA = "check not implemented yet (framework under construction)"
